@@ -1175,3 +1175,48 @@ func c12leftAssociative(c *an.Ctx) {
 	r.AddSites(n)
 	r.Floor(1, "precedence comparisons in ParseExpr")
 }
+
+func init() {
+	old := All["C12"].Run
+	All["C12"].Run = func(c *an.Ctx) {
+		old(c)
+		c12schemaDecodedPerNode(c)
+	}
+	All["C12"].Rules += " R10"
+	addLevel("C12", "in a pushed-down plan every node's schema is decoded from that node's own bytes (no memo keyed on the options alone: two sub-plans with equal options and different field lists would share one schema).")
+}
+
+// c12schemaDecodedPerNode — C12.R10.
+func c12schemaDecodedPerNode(c *an.Ctx) {
+	const X = "engine/executor"
+	r := c.Rule("C12.R10", "K-PROVENANCE", X+":unmarshalNodes — on the push-down branch the node's schema comes from query.DecodeQuerySchema(<the node's schema bytes>, <the node's options>) on every path")
+	f := fn(r, X+":unmarshalNodes")
+	if f == nil {
+		return
+	}
+	dec := f.Find(call(r, queryPkg+":DecodeQuerySchema")).WithWrappers()
+	r.AddSites(dec.Len())
+	if dec.Len() > 0 {
+		// on the push-down branch the decode is passed on every path that goes on without an error
+		edges := f.GuardEdges(an.AtomLike(`\.CanQueryPushDown\(\)$`, true))
+		f.AfterEdgesMustPass(r, edges, dec, "push-down ⇒ the node's schema is decoded (on every path that does not fail)",
+			an.AtomLike(`^(nil==local\(err\w*\)|local\(err\w*\)==nil)$`, false), an.AtomLike(`#1==nil$|^nil==.*#1$`, false))
+	}
+	if dec.Len() == 0 {
+		if !r.Failed() {
+			r.Fail(f.Name+": schema decode", c.P.Pos(f.Body.Pos()), "unmarshalNodes no longer calls query.DecodeQuerySchema (directly or through a helper that calls it on every path) for the node it rebuilds: a schema remembered from another node with equal options carries that node's fields")
+		}
+		return
+	}
+	for _, s := range dec.List {
+		ce, ok := s.Node.(*ast.CallExpr)
+		if !ok {
+			continue
+		}
+		if cal := an.Callee(f.Info, ce); cal != nil && cal.Name() == "DecodeQuerySchema" && len(ce.Args) == 2 {
+			if !strings.HasSuffix(f.Canon(ce.Args[0]), ".GetSchema()") {
+				r.Fail(f.Name+": schema bytes", c.P.Pos(ce.Pos()), "the schema is decoded from %s, not from the node's own GetSchema() bytes", f.Canon(ce.Args[0]))
+			}
+		}
+	}
+}
